@@ -98,7 +98,7 @@ def model_text(case):
         data = inp['data'] + inp.get('model_tail', b'')
         nm = '-'
         if files: nm = hexs(os.path.join(case.get('_tmp', ''), inp.get('name', 'f%d.json' % i)))
-        l = 'input %s %s' % (nm, data.hex())
+        l = 'input %s x%s' % (nm, data.hex())
         if inp.get('fail_at') is not None: l += ' %d' % inp['fail_at']
         L.append(l)
     L.append('stdin %d' % (0 if files else 1))
